@@ -31,8 +31,30 @@ class Fail(Exception):
 
 
 # --------------------------------------------------------------------------- builds
+def third_party_hash():
+    """the interval library is unpacked, patched and built when cmake CONFIGURES the tree: ninja alone does not see a change of
+    these files (archives, patches, lists of the third-party directories)"""
+    h = hashlib.sha256()
+    for sub in ("interval_lib_wrapper", "lp_lib_wrapper"):
+        for dirpath, dirs, files in sorted(os.walk(os.path.join(REPO, sub))):
+            dirs.sort()
+            if os.sep + "3rd" + os.sep in dirpath + os.sep and not dirpath.endswith("3rd"):
+                continue            # (unpacked copies inside the source tree, if any)
+            for fn in sorted(files):
+                if fn.endswith((".patch", ".tar.gz", ".tgz", ".zip", "CMakeLists.txt", ".cmake")):
+                    fp = os.path.join(dirpath, fn)
+                    h.update(fn.encode()); h.update(open(fp, "rb").read())
+    return h.hexdigest()
+
+
 def build_repo(log):
     os.makedirs(BUILD, exist_ok=True)
+    stamp = os.path.join(BUILD, "third_party.sha256")
+    cur = third_party_hash()
+    if os.path.exists(os.path.join(IBEX_B, "build.ninja")) and (not os.path.exists(stamp) or open(stamp).read().strip() != cur):
+        if os.path.exists(stamp):          # changed third-party sources: configure and build from scratch
+            shutil.rmtree(IBEX_B, ignore_errors=True)
+            log.append(("third-party sources changed: full rebuild", 0))
     if not os.path.exists(os.path.join(IBEX_B, "build.ninja")):
         rc, out = sh(["cmake", "-G", "Ninja", "-S", REPO, "-B", IBEX_B, "-DCMAKE_BUILD_TYPE=Release",
                       "-DCMAKE_CXX_FLAGS=-Wno-error -DIBEX_VERIF_HOOKS", "-DINTERVAL_LIB=gaol", "-DLP_LIB=none"])
@@ -43,6 +65,7 @@ def build_repo(log):
     if rc != 0:
         # a changed CMakeLists may need a re-configure
         raise Fail("build of /repo failed:\n" + out[-3000:])
+    open(stamp, "w").write(cur)
     return out
 
 
